@@ -1,1 +1,111 @@
-/-! STUB — property C01 is not built yet. -/
+import Martian.Lemmas.Proxy
+import Martian.Lemmas.ProxyTrace
+import Martian.Lemmas.ProxyState
+/-!
+C01 — HTTP/1 relay preserves every request and response, one-to-one and in order.
+In the model parsed messages are records and the codec (`net/http`) is the identity on them, so
+the content clauses (method, target, end-to-end headers, body bytes) are carried by the
+correspondence run and its oracle; what is proved here, for every request sequence and every
+origin behaviour, is the relay discipline: one response per request, in order, exactly the
+origin's status, the connection served up to and including the first exchange that asks to
+close, and closed exactly then.
+-/
+namespace Martian.Props.C01
+open Martian.Proxy
+
+variable (sd : Bool) (base : Nat) (items : List Item)
+
+/-- With no-op modifiers, every request the proxy reads is forwarded upstream once and answered by
+exactly one response. -/
+theorem relay_one_to_one (k : Nat) (s' : St) (rc : Bool) (org : Org)
+    (h : at? sd base {} 0 items k = some (s', .x rc .pass .pass org)) :
+    countP (isUpstream k) (runConn sd base items) = 1 ∧ countP (isWrite k) (runConn sd base items) = 1 := by
+  unfold runConn
+  rw [count_run local_upstream, count_run local_write, h]
+  cases org <;> simp [handleItem, handleX, pre, rqErr, rqSkip, countP, isUpstream, isWrite]
+
+/-- Indices of the responses written to the client, in trace order. -/
+def writeIdx (evs : List Ev) : List Nat := evs.filterMap fun | .write i _ _ _ => some i | _ => none
+
+theorem writeIdx_item (sd : Bool) (s : St) (i c : Nat) (it : Item) :
+    writeIdx (handleItem sd s i c it).1 = if it.hij then [] else [i] := by
+  simp only [writeIdx]; item_cases it
+
+theorem writeIdx_tail (opn : List Nat) : writeIdx (opn.map Ev.unlink ++ [Ev.closeConn]) = [] := by
+  induction opn with
+  | nil => simp [writeIdx]
+  | cons c r ih => simpa [writeIdx] using ih
+
+theorem writeIdx_run_ge (s : St) (i : Nat) (opn : List Nat) :
+    (∀ j ∈ writeIdx (run sd base s i opn items), i ≤ j) ∧ (writeIdx (run sd base s i opn items)).Pairwise (· < ·) := by
+  induction items generalizing s i opn with
+  | nil => simp [run, writeIdx_tail]
+  | cons it rest ih =>
+    simp only [run]
+    cases hn : (handleItem sd s i (base + i) it).2 with
+    | again s' =>
+      have ⟨h1, h2⟩ := ih s' (i + 1) (nextOpen (base + i) opn it)
+      simp only [hn, writeIdx, List.filterMap_append]
+      have hi := writeIdx_item sd s i (base + i) it
+      simp only [writeIdx] at hi h1 h2
+      rw [hi]
+      split
+      · exact ⟨fun j hj => by have := h1 j (by simpa using hj); omega, by simpa using h2⟩
+      · refine ⟨?_, ?_⟩
+        · intro j hj
+          rcases List.mem_append.mp hj with h | h
+          · simp at h; omega
+          · have := h1 j h; omega
+        · simp only [List.singleton_append, List.pairwise_cons]
+          exact ⟨fun j hj => by have := h1 j hj; omega, h2⟩
+    | close =>
+      have hi := writeIdx_item sd s i (base + i) it
+      have ht := writeIdx_tail opn
+      simp only [writeIdx] at hi ht
+      simp only [hn, writeIdx, List.append_assoc, List.filterMap_append, hi, ht, List.append_nil]
+      split <;> simp
+    | hijack =>
+      have hi := writeIdx_item sd s i (base + i) it
+      have ht := writeIdx_tail opn
+      simp only [writeIdx] at hi ht
+      simp only [hn, writeIdx, List.append_assoc, List.filterMap_append, hi, ht, List.append_nil]
+      split <;> simp
+
+/-- Responses leave in request order: the indices of the written responses are strictly increasing. -/
+theorem relay_in_order : (writeIdx (runConn sd base items)).Pairwise (· < ·) :=
+  (writeIdx_run_ge sd base items {} 0 []).2
+
+/-- The client receives the origin's status code, completely, marked `Connection: close` exactly
+when the client, the origin or a shutdown asked to close. -/
+theorem response_is_origins (k : Nat) (s' : St) (rc : Bool) (st : Nat) (cl : Bool)
+    (h : at? sd base {} 0 items k = some (s', .x rc .pass .pass (.ok st cl))) :
+    Ev.write k st (rc || cl || sd) true ∈ runConn sd base items := by
+  apply mem_run_of_at? sd base {} 0 [] items k s' _ h
+  simp [handleItem, handleX, pre, rqErr, rqSkip]
+
+/-- The connection is served up to and including the first exchange that ends it, and no further:
+the number of requests read is the length of that prefix of the script. -/
+theorem served_prefix_is_until_first_close :
+    numReads (runConn sd base items) = (takeThrough (endsConn sd) items).length :=
+  numReads_run sd base {} 0 [] items
+
+/-- Without modifiers and faults an exchange ends the connection iff the client, the origin or a
+shutdown asked for it - otherwise the connection stays usable for the next request. -/
+theorem closes_iff_asked (rc : Bool) (st : Nat) (cl : Bool) :
+    endsConn sd (.x rc .pass .pass (.ok st cl)) = (rc || cl || sd) := by
+  cases rc <;> cases cl <;> cases sd <;> simp [endsConn, rqSkip]
+
+/-- The next request on the connection is served iff no earlier exchange ended it. -/
+theorem next_request_served_iff (s : St) (i : Nat) (it : Item) (c : Nat) :
+    (handleItem sd s i c it).2.isAgain = !endsConn sd it :=
+  again_iff_not_ends sd s i c it
+
+/-! Non-vacuity (tests): three pipelined exchanges, the second asking to close. -/
+example : numReads (runConn false 0 [.x false .pass .pass (.ok 200 false), .x true .pass .pass (.ok 404 false),
+    .x false .pass .pass (.ok 200 false)]) = 2 := by decide
+example : writeIdx (runConn false 0 [.x false .pass .pass (.ok 200 false), .x true .pass .pass (.ok 404 false),
+    .x false .pass .pass (.ok 200 false)]) = [0, 1] := by decide
+example : at? false 0 {} 0 [.x false .pass .pass (.ok 200 false), .x true .pass .pass (.ok 404 false)] 1
+    = some ({}, .x true .pass .pass (.ok 404 false)) := by decide
+
+end Martian.Props.C01
